@@ -1,0 +1,190 @@
+//! Verification hooks; only compiled with `--cfg sos_verif`.
+//!
+//! Everything here is inert unless a harness explicitly arms it:
+//!
+//! * a settable logical clock consulted by `UtcDateTime::default()`,
+//! * named step-boundary probes that count hits and can simulate a
+//!   process death (`abort`) or an I/O error at the n-th hit,
+//! * an append-only note list used to classify which code path ran.
+//!
+//! State is process-global behind a single mutex so the monitor
+//! cannot race with the state it shadows.
+use std::collections::BTreeMap;
+use std::sync::{Mutex, OnceLock};
+use time::OffsetDateTime;
+
+/// What an armed probe does when it fires.
+#[derive(Debug, Clone, Copy, PartialEq, Eq)]
+pub enum ArmMode {
+    /// Abort the process (no destructors, no later writes).
+    Abort,
+    /// Make `probe_io` return an error.
+    IoError,
+}
+
+#[derive(Default)]
+struct State {
+    clock: Option<(i128, i128)>,
+    armed: Option<(String, u64, ArmMode)>,
+    env_checked: bool,
+    hits: BTreeMap<String, u64>,
+    order: Vec<String>,
+    record_order: bool,
+    notes: Vec<(String, String)>,
+}
+
+fn state() -> &'static Mutex<State> {
+    static STATE: OnceLock<Mutex<State>> = OnceLock::new();
+    STATE.get_or_init(|| Mutex::new(State::default()))
+}
+
+fn lock() -> std::sync::MutexGuard<'static, State> {
+    match state().lock() {
+        Ok(guard) => guard,
+        Err(poison) => poison.into_inner(),
+    }
+}
+
+/// Set the logical clock: the next read returns `base_ns` (unix
+/// nanoseconds) and every read advances it by `step_ns`.
+pub fn clock_set(base_ns: i128, step_ns: i128) {
+    lock().clock = Some((base_ns, step_ns));
+}
+
+/// Remove the logical clock so the system clock is used again.
+pub fn clock_clear() {
+    lock().clock = None;
+}
+
+/// Current value of the logical clock without advancing it.
+pub fn clock_peek() -> Option<i128> {
+    lock().clock.map(|(now, _)| now)
+}
+
+/// Read (and advance) the logical clock if one is set.
+pub fn clock_now() -> Option<OffsetDateTime> {
+    let mut state = lock();
+    if let Some((now, step)) = state.clock.as_mut() {
+        let value = *now;
+        *now += *step;
+        OffsetDateTime::from_unix_timestamp_nanos(value).ok()
+    } else {
+        None
+    }
+}
+
+fn check_env(state: &mut State) {
+    if state.env_checked {
+        return;
+    }
+    state.env_checked = true;
+    if let Ok(value) = std::env::var("VERIF_ARM") {
+        // name:nth[:io]
+        let mut parts = value.split(':').collect::<Vec<_>>();
+        let mode = if parts.last() == Some(&"io") {
+            parts.pop();
+            ArmMode::IoError
+        } else {
+            ArmMode::Abort
+        };
+        if let Some(nth) = parts.pop().and_then(|s| s.parse::<u64>().ok()) {
+            let name = parts.join(":");
+            state.armed = Some((name, nth, mode));
+        }
+    }
+    if std::env::var("VERIF_PROBE_ORDER").is_ok() {
+        state.record_order = true;
+    }
+}
+
+fn hit(name: &str) -> Option<ArmMode> {
+    let mut state = lock();
+    check_env(&mut state);
+    let count = {
+        let entry = state.hits.entry(name.to_owned()).or_insert(0);
+        *entry += 1;
+        *entry
+    };
+    if state.record_order {
+        state.order.push(name.to_owned());
+    }
+    let fire = match &state.armed {
+        Some((armed, nth, mode)) if armed == name && *nth == count => {
+            Some(*mode)
+        }
+        _ => None,
+    };
+    if fire.is_some() {
+        state.armed = None;
+    }
+    fire
+}
+
+/// Step-boundary probe: counts the hit and, when armed in abort
+/// mode for this hit, kills the process.
+pub fn probe(name: &str) {
+    if let Some(ArmMode::Abort) = hit(name) {
+        std::process::abort();
+    }
+}
+
+/// Step-boundary probe at a fallible I/O site: like `probe` but
+/// when armed in I/O error mode returns an error instead.
+pub fn probe_io(name: &str) -> std::io::Result<()> {
+    match hit(name) {
+        Some(ArmMode::Abort) => std::process::abort(),
+        Some(ArmMode::IoError) => Err(std::io::Error::new(
+            std::io::ErrorKind::Other,
+            format!("sos_verif injected i/o error at {}", name),
+        )),
+        None => Ok(()),
+    }
+}
+
+/// Arm a probe: the `nth` hit (1-based, counted from now) of
+/// `name` fires with `mode`.
+pub fn arm(name: &str, nth: u64, mode: ArmMode) {
+    let mut state = lock();
+    state.env_checked = true;
+    let seen = state.hits.get(name).copied().unwrap_or(0);
+    state.armed = Some((name.to_owned(), seen + nth, mode));
+}
+
+/// Disarm any armed probe.
+pub fn disarm() {
+    let mut state = lock();
+    state.env_checked = true;
+    state.armed = None;
+}
+
+/// Whether a probe is still armed (it did not fire yet).
+pub fn is_armed() -> bool {
+    lock().armed.is_some()
+}
+
+/// Snapshot of the hit counters.
+pub fn hits() -> BTreeMap<String, u64> {
+    lock().hits.clone()
+}
+
+/// Start/stop recording the order of probe hits.
+pub fn record_order(on: bool) {
+    let mut state = lock();
+    state.record_order = on;
+    state.order.clear();
+}
+
+/// Drain the recorded order of probe hits.
+pub fn drain_order() -> Vec<String> {
+    std::mem::take(&mut lock().order)
+}
+
+/// Append a classification note.
+pub fn note(kind: &str, detail: impl Into<String>) {
+    lock().notes.push((kind.to_owned(), detail.into()));
+}
+
+/// Drain the notes recorded so far.
+pub fn drain_notes() -> Vec<(String, String)> {
+    std::mem::take(&mut lock().notes)
+}
